@@ -82,6 +82,11 @@ def rule_wunary(roles):
 
 def _infix_loop(roles):
     bs = builders(roles, 'Binary')
+    # the body that both builds Binary nodes and re-enters itself with a precedence (on a view the builder may
+    # have been inlined into several bodies)
+    for b, *_ in bs:
+        if _minprec_param(b)[0] is not None and b.sccs():
+            return b
     return bs[0][0] if bs else None
 
 
@@ -89,7 +94,7 @@ def _minprec_param(body):
     """index of the integer parameter that is the minimum precedence: the one a recursive
     self-call passes a non-constant value for"""
     for c in body.live_calls:
-        if c.ruid == body.id:
+        if c.ruid == getattr(body, 'orig_id', body.id):
             for k in range(1, body.arg_count):
                 if re.match(r'^(i|u)(8|16|32|64|size)$', body.locals[k + 1]['ty']):
                     return k + 1, c
